@@ -18,6 +18,32 @@ ENTRIES = [
 ]
 
 
+def resolution_worker(run):
+    """the BaseParser method that evaluates the pending references (discovered by the evaluate_forward_ref call)"""
+    B = run.repo.cls("utype.parser.base", "BaseParser")
+    ws = [m for m in B.methods.values()
+          if any(isinstance(c, ast.Call) and call_attr(c) == "evaluate_forward_ref" for c in walk_shallow(m.node))]
+    if len(ws) != 1:
+        raise AnalysisError(f"BaseParser: expected one method calling evaluate_forward_ref, found {[w.name for w in ws]}")
+    return ws[0]
+
+
+def type_resolvers(run, worker):
+    """functions (worker, helpers it calls through self, and their overrides in FunctionParser) that re-resolve types"""
+    B = run.repo.cls("utype.parser.base", "BaseParser")
+    F = run.repo.cls("utype.parser.func", "FunctionParser")
+    out = [worker]
+    helper_calls = []
+    for c in walk_shallow(worker.node):
+        if isinstance(c, ast.Call) and isinstance(c.func, ast.Attribute) and unparse(c.func.value) == "self" \
+                and c.func.attr in B.methods and c.func.attr != worker.name and "forward" in c.func.attr:
+            helper_calls.append(c)
+            out.append(B.methods[c.func.attr])
+            if c.func.attr in F.methods:
+                out.append(F.methods[c.func.attr])
+    return out, helper_calls
+
+
 def r17a(run):
     for mod, q, uses in ENTRIES:
         f = run.repo.func(mod, q)
@@ -40,23 +66,38 @@ def r17a(run):
 
 
 def r17b(run):
-    f = run.repo.func("utype.parser.base", "BaseParser.resolve_forward_refs")
+    f = resolution_worker(run)
     fa = analysis(f)
+    resolvers, helper_calls = type_resolvers(run, f)
     loops = [n for n in fa.cfg.nodes if n.kind == "iter" and "self.fields" in unparse(n.ast)]
     calls = [n for n, c in fa.all_calls() if call_attr(c) == "resolve_forward_refs" and unparse(c.func.value) != "self"]
     ok = bool(loops) and bool(calls) and all(any(x is c.ast or x is getattr(c, 'stmt', None) for x in walk_shallow(loops[0].stmt))
                                              for c in calls)
     run.check("R17b", f, "after a resolution every field re-resolves its types", ok, construct="fields not re-resolved",
-              message="BaseParser.resolve_forward_refs no longer calls field.resolve_forward_refs() for every field",
+              message=f"BaseParser.{f.name} no longer calls field.resolve_forward_refs() for every field",
               necessity="fields keep the ForwardRef object as their type: the same name used in several annotations "
                         "resolves for one field only")
     guard_ok = bool(loops) and any(unparse(a) == "resolved" and p for a, p in fa.facts.atoms_at(loops[0]))
     run.check("R17b", f, "the re-resolution runs whenever something was resolved", guard_ok, construct="re-resolution guard",
               message="the fields loop is not guarded by exactly `resolved`")
-    add = [n for n in fa.cfg.nodes if n.kind == "stmt" and isinstance(n.ast, ast.Assign)
-           and "self.addition_type" in unparse(n.ast.targets[0]) and "resolve_forward_type" in unparse(n.ast.value)]
-    run.check("R17b", f, "the addition type is re-resolved too", bool(add), construct="addition type not re-resolved",
-              message="BaseParser.resolve_forward_refs does not re-resolve self.addition_type",
+    add = []
+    for g in resolvers:
+        if g.cls is not None and g.cls.name != "BaseParser":
+            continue
+        ga = analysis(g)
+        for n in ga.cfg.nodes:
+            if n.kind == "stmt" and isinstance(n.ast, ast.Assign) and "self.addition_type" in unparse(n.ast.targets[0]) \
+                    and "resolve_forward_type" in unparse(n.ast.value):
+                if g is f:
+                    add.append(any(unparse(a) == "resolved" and p for a, p in ga.facts.atoms_at(n)))
+                else:
+                    hc = [c for c in helper_calls if c.func.attr == g.name]
+                    hn = [n2 for n2, c2 in fa.all_calls() if any(c2 is c for c in hc)]
+                    add.append(bool(hn) and all(any(unparse(a) == "resolved" and p for a, p in fa.facts.atoms_at(n2))
+                                                for n2 in hn))
+    run.check("R17b", f, "the addition type is re-resolved too (whenever something was resolved)", bool(add) and all(add),
+              construct="addition type not re-resolved",
+              message="first-use resolution does not re-resolve self.addition_type under `resolved`",
               necessity="**kwargs: 'Later' keeps converting against an unresolved reference")
     # resolved flag is set exactly when a reference evaluated
     sets = [n for n in fa.cfg.nodes if n.kind == "stmt" and isinstance(n.ast, ast.Assign)
@@ -64,22 +105,53 @@ def r17b(run):
     ok = bool(sets) and all(any(unparse(a) == "ref.__forward_evaluated__" and p for a, p in fa.facts.atoms_at(n)) for n in sets)
     run.check("R17b", f, "`resolved` is set for every successfully evaluated reference", ok, construct="resolved flag",
               message="`resolved = True` is not set under `ref.__forward_evaluated__`")
-    pops = [n for n, c in fa.all_calls() if call_attr(c) == "pop" and "forward_refs" in unparse(c.func.value)]
-    ok = bool(pops) and all(any(unparse(a) == "ref.__forward_evaluated__" and p for a, p in fa.facts.atoms_at(n)) for n in pops)
-    run.check("R17b", f, "a reference leaves the pending table only once evaluated", ok, construct="pending table",
-              message="forward_refs.pop is not guarded by the evaluated flag")
+    # a reference leaves the pending table only once evaluated: a guarded pop, or a pop over a list that the worker
+    # only appends to under the evaluated flag
+    B = run.repo.cls("utype.parser.base", "BaseParser")
+    pops_total = 0
+    for m in B.methods.values():
+        ma = analysis(m)
+        for n, c in ma.all_calls():
+            if call_attr(c) in ("pop", "popitem", "clear") and isinstance(c.func, ast.Attribute) \
+                    and unparse(c.func.value) == "self.forward_refs":
+                pops_total += 1
+                ok = any(unparse(a) == "ref.__forward_evaluated__" and p for a, p in ma.facts.atoms_at(n))
+                if not ok:
+                    loops_ = [b for b in ma.cfg.dominators()[n] if b.kind == "branch" and b.is_for and b.polarity]
+                    if loops_ and isinstance(loops_[-1].stmt.iter, ast.Name) and c.args \
+                            and unparse(c.args[0]) == unparse(loops_[-1].stmt.target):
+                        lst = loops_[-1].stmt.iter.id
+                        # the list is handed to the worker, which appends under the evaluated flag only
+                        passed = [c2 for n2, c2 in ma.all_calls() if call_attr(c2) == f.name
+                                  and any(isinstance(a, ast.Name) and a.id == lst for a in c2.args)]
+                        if passed:
+                            idx = [i for i, a in enumerate(passed[0].args) if isinstance(a, ast.Name) and a.id == lst][0]
+                            pname = f.params[idx + 1] if len(f.params) > idx + 1 else None
+                            apps = [(n3, c3) for n3, c3 in fa.all_calls() if call_attr(c3) == "append"
+                                    and unparse(c3.func.value) == pname]
+                            ok = bool(apps) and all(any(unparse(a) == "ref.__forward_evaluated__" and p
+                                                        for a, p in fa.facts.atoms_at(n3)) for n3, c3 in apps)
+                run.check("R17b", m, "a reference leaves the pending table only once evaluated", ok, construct="pending table",
+                          message=f"`{unparse(c)}` in {m.name} is not tied to the evaluated flag", node=c)
+    run.floor("R17b", "removals from the pending table", pops_total, 1)
     g = run.repo.func("utype.parser.field", "ParserField.resolve_forward_refs")
     txt = unparse(g.node)
     ok = "self.type, " in txt and "self.output_type, " in txt and txt.count("resolve_forward_type") >= 2
     run.check("R17b", g, "a field re-resolves both its input type and its output type", ok, construct="field types",
               message="ParserField.resolve_forward_refs does not re-resolve both self.type and self.output_type")
-    h = run.repo.func("utype.parser.func", "FunctionParser.resolve_forward_refs")
-    ha = analysis(h)
-    txt = unparse(h.node)
-    sup = [n for n, c in ha.all_calls() if call_attr(c) == "resolve_forward_refs"]
-    ok = bool(sup) and "self.position_type, " in txt and "self.return_type, " in txt
+    F = run.repo.cls("utype.parser.func", "FunctionParser")
+    hs = [m for m in F.methods.values() if "self.position_type, " in unparse(m.node) and "self.return_type, " in unparse(m.node)
+          and unparse(m.node).count("resolve_forward_type") >= 2]
+    ok = False
+    h = hs[0] if hs else F.methods.get("resolve_forward_refs") or f
+    if hs:
+        # reached from the worker: an override of a helper the worker calls (calling super), or an override of
+        # resolve_forward_refs that first calls super()
+        sup = [c for c in walk_shallow(h.node) if isinstance(c, ast.Call) and call_attr(c) == h.name
+               and isinstance(c.func, ast.Attribute) and unparse(c.func.value) == "super()"]
+        ok = bool(sup) and (h.name in [c.func.attr for c in helper_calls] or h.name == "resolve_forward_refs")
     run.check("R17b", h, "functions re-resolve the *args type and the return type", ok, construct="function types",
-              message="FunctionParser.resolve_forward_refs does not re-resolve position_type / return_type",
+              message="FunctionParser does not re-resolve position_type / return_type as part of first-use resolution",
               necessity="-> 'Later' return annotations are never enforced")
     k = run.repo.func("utype.parser.rule", "resolve_forward_type")
     ka = analysis(k)
@@ -94,7 +166,7 @@ def r17b(run):
 
 
 def r17c(run):
-    f = run.repo.func("utype.parser.base", "BaseParser.resolve_forward_refs")
+    f = resolution_worker(run)
     fa = analysis(f)
     pa = [(n, c) for n, c in fa.all_calls() if call_attr(c) == "parse_annotation"]
     run.floor("R17c", "re-parse of a resolved reference", len(pa), 1)
@@ -162,19 +234,22 @@ def r17d(run):
 
 
 def r17e(run):
-    f = run.repo.func("utype.parser.base", "BaseParser.resolve_forward_refs")
+    f = resolution_worker(run)
     fa = analysis(f)
+    resolvers, helper_calls = type_resolvers(run, f)
     clears = [n for n in fa.cfg.nodes if n.kind == "stmt" and isinstance(n.ast, ast.Assign)
               and unparse(n.ast.targets[0]) == "ref.__forward_evaluated__" and isinstance(n.ast.value, ast.Constant)
               and n.ast.value.value is False]
     floop = [n for n in fa.cfg.nodes if n.kind == "iter" and "self.fields" in unparse(n.ast)]
+    hnodes = [n for n, c in fa.all_calls() if any(c is hc for hc in helper_calls)]
     if clears:
         ok = all(any(unparse(a) == "self.is_local" and p for a, p in fa.facts.atoms_at(c)) for c in clears)
         run.check("R17e", f, "evaluated references are reset only for local (function-scoped) declarations", ok,
                   construct="reset outside local scope", message="ForwardRef objects are reset for non-local declarations",
                   necessity="module-level references would be re-evaluated / unresolved on the next use")
-        ok = bool(floop) and all(not fa.cfg.can_reach(c, floop[0]) for c in clears)
-        run.check("R17e", f, "the reset happens after the fields have picked up the resolved types", ok,
+        ok = bool(floop) and all(not fa.cfg.can_reach(c, x) for c in clears for x in floop + hnodes)
+        run.check("R17e", f, "the reset happens after the fields (and the other declared types) have picked up the "
+                             "resolved types", ok,
                   construct="reset before re-resolution", message="the local-scope reset of ForwardRef objects can run "
                   "before the fields re-resolve their types", necessity="local classes keep unresolved field types")
     g = run.repo.cls("utype.parser.cls", "ClassParser").methods.get("globals")
